@@ -15,6 +15,12 @@ from typing import Any
 
 from vp.core import enc, Infra
 
+
+class BrokenTie(RuntimeError):
+    """The op log can no longer observe the implementation (the code changed shape): the correspondence is
+    broken — reported by the decision rule as a violation with no failing input, never as a verdict and never
+    as an infrastructure fault."""
+
 SKIP_NAMES = ("Start", "Restart", "Stop")
 UNKNOWN_INST = 900_000
 
@@ -120,6 +126,7 @@ class TrackLog:
         self.guard = guard
         self.stale_calls = 0
         self.counts: dict[str, int] = {}
+        self.n_addrec = 0          # records seen by the hook since the current tracker was installed
 
     def inst_of(self, uid: str) -> int:
         if uid not in self.inst:
@@ -153,6 +160,13 @@ class TrackLog:
     def install(cls):
         if cls._patched:
             return
+        try:
+            cls._install()
+        except AttributeError as e:     # the tracking API this harness wraps by (public) name has changed
+            raise BrokenTie(f"tracking API changed, the C15 op log cannot be installed: {e}") from e
+
+    @classmethod
+    def _install(cls):
         cls._patched = True
         import openpectus.lang.model.ast as p
         from openpectus.lang.exec.tracking import Tracking
@@ -175,6 +189,7 @@ class TrackLog:
             if log is not None:
                 log.tracking = self
                 log.inst = {}          # uuids are allocated per RuntimeInfo; node ordinals continue (only names)
+                log.n_addrec = len(runtimeinfo.records)
                 log.emit(f"init\t{int(bool(enabled))}\t{int(log.guard)}", "ok")
                 for r in runtimeinfo.records:   # normally empty
                     log.emit(f"addrec\t{log.nodes(r.node_id)}\t{enc(r.node_class_name)}\t{name_field(r.name)}", "ok")
@@ -201,15 +216,54 @@ class TrackLog:
                 return f
             setattr(Tracking, nm, mk())
 
-        orig_add = RuntimeInfo._add_record
+        # Record creation is observed where it becomes visible - the list behind the public `RuntimeInfo.records` -
+        # not through a private method name: every RuntimeInfo gets a list subclass whose growth is logged.
+        class LoggedRecords(list):
+            owner = None
 
-        def add_record(self, record):
-            orig_add(self, record)
-            log = cls.current
-            if log is not None and log.tracking is not None and log.tracking.runtimeinfo is self:
-                log.emit(f"addrec\t{log.nodes(record.node_id)}\t{enc(record.node_class_name)}\t{name_field(record.name)}",
-                         "ok")
-        RuntimeInfo._add_record = add_record
+            def _seen(self, record):
+                log = cls.current
+                if log is not None and log.tracking is not None and log.tracking.runtimeinfo is self.owner:
+                    log.n_addrec += 1
+                    log.emit(f"addrec\t{log.nodes(record.node_id)}\t{enc(record.node_class_name)}\t"
+                             f"{name_field(record.name)}", "ok")
+
+            def append(self, record):
+                list.append(self, record)
+                self._seen(record)
+
+            def insert(self, i, record):
+                if i != len(self):
+                    raise BrokenTie("RuntimeInfo inserts a record in the middle of its list: not an op of the tracking model")
+                list.insert(self, i, record)
+                self._seen(record)
+
+            def extend(self, records):
+                for r in records:
+                    self.append(r)
+
+            def __iadd__(self, records):
+                self.extend(records)
+                return self
+
+        orig_ri_init = RuntimeInfo.__init__
+
+        def ri_init(self, *a, **kw):
+            orig_ri_init(self, *a, **kw)
+            sentinel = object()
+            for k, v in list(vars(self).items()):
+                if type(v) is list:
+                    v.append(sentinel)
+                    hit = any(x is sentinel for x in self.records)
+                    v.pop()
+                    if hit:
+                        lst = LoggedRecords(v)
+                        lst.owner = self
+                        setattr(self, k, lst)
+                        self._verif_records_attr = k
+                        return
+            raise BrokenTie("no list attribute of RuntimeInfo backs its public `records`: record creation cannot be observed")
+        RuntimeInfo.__init__ = ri_init
 
         orig_create = Tracking.create_node_instance_id
 
@@ -355,6 +409,7 @@ class CompletionLog:
         self.seen_inst: dict[tuple[int, str], set] = {}   # (tracker, node id) -> instance ids of earlier completions
         self.n_events = 0
         self.n_repeat = 0
+        self.raw = 0               # every completed-write seen by the hook
 
     @classmethod
     def install(cls):
@@ -379,6 +434,7 @@ class CompletionLog:
         if tr is None:
             return
         rec = tr.runtimeinfo.get_record_by_node(node.id)
+        self.raw += 1
         self.events.append({"node": node, "tr": tr, "t": tr.tick_time, "caller": caller,
                             "inst": rec.last_instance_id if rec is not None else None, "has_record": rec is not None})
 
@@ -521,7 +577,17 @@ def run_case(case: dict, guard: bool = True, with_ops: bool = True) -> dict:
         text, rl = runlog_text(tr.runtimeinfo, inst_of)
         stats["runlogs"] += 1
         if with_ops:
-            log.emit("dump", records_text(tr.runtimeinfo.records, log.nodes, log.inst_of))
+            # a dead hook must never look like a verdict: the op log has to account for every record / invocation
+            recs = tr.runtimeinfo.records
+            if log.tracking is not tr:
+                raise BrokenTie("C15 op log: the engine's tracker was not seen by the Tracking.__init__ hook (broken tie)")
+            if log.n_addrec != len(recs):
+                raise BrokenTie(f"C15 op log: {len(recs)} runtime records but {log.n_addrec} record creations observed "
+                            "(record-creation hook dead: broken tie, no verdict)")
+            if any(r.states for r in recs) and log.counts.get("create", 0) == 0:
+                raise BrokenTie("C15 op log: records have states but no create_node_instance_id call was observed "
+                            "(tracking hooks dead: broken tie, no verdict)")
+            log.emit("dump", records_text(recs, log.nodes, log.inst_of))
             log.emit("trunlog", text)
         if text.startswith("err:"):
             fail("runlog-raises-" + text[4:], f"get_runlog() raised {type(rl).__name__}: {str(rl)[:120]}", tick)
@@ -531,6 +597,9 @@ def run_case(case: dict, guard: bool = True, with_ops: bool = True) -> dict:
         for key, detail in clog.check(rl):
             fail(key, detail, tick)
         stats["items"] = max(stats["items"], len(rl.items))
+        if clog.raw == 0 and any(str(it.state) == "completed" for it in rl.items):
+            raise BrokenTie("C15 oracle: the run log has Completed items but the node.completed hook saw no write "
+                        "(completion hook dead: no verdict)")
         stats["failed_items"] = max(stats["failed_items"], sum(1 for it in rl.items if str(it.state) == "failed"))
         stats["conclusive_items"] = max(stats["conclusive_items"],
                                         sum(1 for it in rl.items if str(it.state) in CONCLUSIVE))
@@ -656,5 +725,37 @@ def build_runtimeinfo(recs: list[dict]):
             st.cancellable, st.cancelled, st.forcible, st.forced = (ch == "1" for ch in s["f"])
             st.command = command(s["c"])
             rec.states.append(st)
-        ri._add_record(rec)
+        add_record_fn()(ri, rec)
     return ri
+
+
+_ADD_RECORD = None
+
+
+def add_record_fn():
+    """The RuntimeInfo method that registers one record (located by role once per process, not by its private name):
+    called on a scratch instance with a record it makes `records` grow by that record and `get_record_by_node` find it."""
+    global _ADD_RECORD
+    if _ADD_RECORD is None:
+        import inspect
+        from openpectus.lang.exec.runlog import RuntimeInfo, RuntimeRecord
+        for name, fn in vars(RuntimeInfo).items():
+            if not inspect.isfunction(fn) or name.startswith("__"):
+                continue
+            try:
+                params = list(inspect.signature(fn).parameters)
+            except (TypeError, ValueError):
+                continue
+            if len(params) != 2:
+                continue
+            ri, rec = RuntimeInfo(), RuntimeRecord(node_id="probe", name="probe", node_class_name="MarkNode")
+            try:
+                fn(ri, rec)
+            except Exception:
+                continue
+            if len(ri.records) == 1 and ri.records[0] is rec and ri.get_record_by_node("probe") is rec:
+                _ADD_RECORD = fn
+                break
+        if _ADD_RECORD is None:
+            raise BrokenTie("no RuntimeInfo method registers a record: synthetic record lists cannot be built")
+    return _ADD_RECORD
